@@ -55,6 +55,20 @@ POOL = {
 }
 
 
+def same_shape_batch(batch, rng):
+    """Another batch with the same atom count in every slot but other elements (driver-reuse strata)."""
+    by_size = {}
+    for name, (z, _) in POOL.items():
+        if name in ("o1", "h1"):
+            continue
+        by_size.setdefault(len(z), []).append(name)
+    out = []
+    for m in batch:
+        cands = [c for c in sorted(by_size[len(POOL[m][0])]) if POOL[c][0] != POOL[m][0]]
+        out.append(rng.choice(cands) if cands else m)
+    return out
+
+
 def rotation_matrix(seed):
     """Seeded random proper rotation (keeps real-driver geometries off the axis-aligned cone)."""
     if seed is None:
@@ -102,7 +116,7 @@ def build_batch(cfg):
 
 
 ENGINES = ("basic", "langevin", "xl", "xl_damp", "ksa", "exc_basic", "exc_xl", "sh")
-STUB_OK = ("basic", "langevin", "xl", "xl_damp", "ksa")
+STUB_OK = ("basic", "langevin", "xl", "xl_damp", "ksa", "sh_model")
 
 
 def seqm_parameters(cfg):
@@ -117,6 +131,11 @@ def seqm_parameters(cfg):
         sp["excited_states"] = {"n_states": cfg.get("n_states", 2), "method": "cis"}
         if cfg.get("nonadiabatic"):
             sp["nonadiabatic"] = dict(cfg["nonadiabatic"])
+    if eng == "sh_model":
+        # surface hopping on the N-state analytic model (dst/shmodel.py); parameters survive the checkpoint
+        sp["_shmodel"] = {"ns": cfg.get("n_states", 3), "seed": cfg.get("model_seed", 1), "substeps": cfg.get("substeps")}
+        sp["excited_states"] = {"n_states": cfg.get("n_states", 3), "method": "cis"}
+        sp["nonadiabatic"] = {"compute_nac": True, "detect_crossings": False, "decohere_on_hop": bool(cfg.get("decohere", False))}
     return sp
 
 
@@ -168,8 +187,11 @@ def make_md(cfg, prefix, params=None, md=None):
     elif eng == "ksa":
         xp = {"k": cfg["k"], "max_rank": cfg.get("max_rank", 2), "err_threshold": 0.0, "T_el": cfg.get("T_el", 1500)}
         md = MDm.KSA_XL_BOMD(damp=cfg.get("ksa_damp"), xl_bomd_params=xp, **common)
-    elif eng == "sh":
-        md = NDm.SurfaceHoppingDynamics(initial_state=cfg.get("initial_state", 1), damp=cfg.get("damp"), **common)
+    elif eng in ("sh", "sh_model"):
+        init = cfg.get("initial_state", 1)
+        if isinstance(init, list):
+            init = torch.tensor(init)
+        md = NDm.SurfaceHoppingDynamics(initial_state=init, damp=cfg.get("damp"), **common)
     else:
         raise ValueError(eng)
     init = cfg.get("init")
@@ -205,6 +227,10 @@ def _child_incarnation(cfg, workdir, inc, fault, mode, opts):
     torch.set_default_dtype(torch.float64)
     if cfg["driver"] == "stub":
         MDm.esdriver = stub.StubES
+    if cfg["engine"] == "sh_model":
+        from . import shmodel
+
+        NDm.SurfaceHoppingDynamics = shmodel.SurfaceHoppingDynamics
     prefix = os.path.join(workdir, "t")
     iosim.Sim.reset(os.path.join(workdir, f"events.{inc}.log"), fault=fault, xyzbuf=cfg.get("xyzbuf"))
     tshim = iosim.install(io_seam=opts.get("io_seam", True), line_clock=opts.get("line_clock", False), rng_seam=opts.get("rng_seam", False))
@@ -240,7 +266,7 @@ def _child_incarnation(cfg, workdir, inc, fault, mode, opts):
         md.run(mol, **kw)
     else:
         path = prefix + ".restart.pt"
-        if cfg["engine"] == "sh":
+        if cfg["engine"] in ("sh", "sh_model"):
             NDm.SurfaceHoppingDynamics.run_from_checkpoint(path)
         else:
             MDm.Molecular_Dynamics_Basic.run_from_checkpoint(path)
@@ -421,7 +447,7 @@ def expected_streams(cfg):
         "velocities": due_steps(S, int(h5.get("velocities", 0))),
         "forces": due_steps(S, int(h5.get("forces", 0))),
         "xyz": due_steps(S, int(o.get("xyz", 0))),
-        "nonadiabatic": due_steps(S, int(h5.get("nonadiabatic", 0))) if cfg["engine"] == "sh" else [],
+        "nonadiabatic": due_steps(S, int(h5.get("nonadiabatic", 0))) if cfg["engine"] in ("sh", "sh_model") else [],
         "screen": due_steps(S, int(o.get("print", 0)), initial=False),
         "checkpoint": due_steps(S, int(o.get("ckpt", 0)), initial=False),
     }
